@@ -245,8 +245,6 @@ def parts(tier):
         for A in sets3:
             for B in sets3:
                 for fi in range(5):
-                    if len(A) != len(B) and fi:
-                        continue
                     if fi >= 3 and (len(A) + len(B)) % 2:
                         continue
                     yield (D.labelled(A, "abc"), D.labelled(B, "xyz"), fi)
